@@ -159,13 +159,14 @@ func (d *driver) ops(w *world.World, depth int, path []string) []engine.Op {
 			}
 		}
 	}
-	for _, cls := range []string{"1", "bal", "bal+1", "1liq", "1+1liq"} {
+	for _, cls := range []string{"1", "bal", "bal+1", "1liq", "1+1liq", "dup", "unsorted", "zero", "empty"} {
 		for _, x := range names {
 			for _, y := range names {
 				add(fmt.Sprintf("amount(%s>%s,%s)", x, y, cls), opKind{kind: "amount", x: x, y: y, amtClass: cls})
 			}
 		}
 	}
+	add("fund(A,dup)", opKind{kind: "fund", x: "A", coins: sdk.Coins{sdk.NewInt64Coin(world.Denom, 1), sdk.NewInt64Coin(world.Denom, 1)}})
 	add("fund(A,1000atest)", opKind{kind: "fund", x: "A", coins: sdk.NewCoins(sdk.NewInt64Coin(bad, 1000))})
 	add("fund(A,3aISLM+1atest)", opKind{kind: "fund", x: "A", coins: sdk.NewCoins(sdk.NewInt64Coin(world.Denom, 3), sdk.NewInt64Coin(bad, 1))})
 	add("banksend(A>module,1)", opKind{kind: "banksend", x: "A"})
@@ -226,6 +227,16 @@ func (d *driver) apply(k opKind, path []string, res *engine.Result) string {
 			moved = sdk.NewCoins(sdk.NewInt64Coin(liquid, 1))
 		case "1+1liq":
 			moved = sdk.NewCoins(sdk.NewInt64Coin(world.Denom, 1), sdk.NewInt64Coin(liquid, 1))
+		// malformed coin lists (hand-built, as a client can send them): if accepted, the stated
+		// amount is the sum of the listed coins
+		case "dup":
+			moved = sdk.Coins{sdk.NewInt64Coin(world.Denom, 1), sdk.NewInt64Coin(world.Denom, 1)}
+		case "unsorted":
+			moved = sdk.Coins{sdk.NewInt64Coin(liquid, 1), sdk.NewInt64Coin(world.Denom, 1)}
+		case "zero":
+			moved = sdk.Coins{sdk.NewInt64Coin(world.Denom, 0)}
+		case "empty":
+			moved = sdk.Coins{}
 		}
 		_, err = w.RunMsg(ctx, ucdaotypes.NewMsgTransferOwnershipWithAmount(d.acct[k.x], d.acct[k.y], moved))
 	case "banksend":
@@ -264,12 +275,16 @@ func (d *driver) apply(k opKind, path []string, res *engine.Result) string {
 		for _, c := range k.coins {
 			want.set(k.x, c.Denom, want.get(k.x, c.Denom).Add(c.Amount))
 		}
-		wantTotal = wantTotal.Add(k.coins...)
+		norm := sdk.NewCoins()
+		for _, c := range k.coins {
+			norm = norm.Add(c)
+		}
+		wantTotal = wantTotal.Add(norm...)
 		// bank side: depositor pays exactly the deposit, module receives it
-		if got := w.App.BankKeeper.GetAllBalances(ctx, d.acct[k.x]); !got.IsEqual(preBank[k.x].Sub(k.coins...)) {
+		if got := w.App.BankKeeper.GetAllBalances(ctx, d.acct[k.x]); !got.IsEqual(preBank[k.x].Sub(norm...)) {
 			viol("delta", "funding did not debit the depositor by exactly the deposit", map[string]any{"got": got.String()})
 		}
-		if got := w.App.BankKeeper.GetAllBalances(ctx, d.mod); !got.IsEqual(preMod.Add(k.coins...)) {
+		if got := w.App.BankKeeper.GetAllBalances(ctx, d.mod); !got.IsEqual(preMod.Add(norm...)) {
 			viol("module", "funding did not credit the module account by exactly the deposit", map[string]any{"got": got.String()})
 		}
 	case "all", "ratio", "amount":
